@@ -20,6 +20,17 @@ def run(ctx):
         cases = progs.gen(ctx, 25 if quick else 300, length=14, nl=4, bits=bits)
         for c in cases:
             base = progs.complete(c, org=0x7c00, bits=bits)
+            # names also inside size-qualified memory operands ([name] with BYTE/WORD/DWORD in front, both directions); what these
+            # statements assemble to is C02's business, here only the independence from the spelling of the name is judged
+            labs = [s_["nm"] for s_ in base if s_["k"] == "label"]
+            ml = lambda nm, w: {"t": "m", "w": w, "aw": 0, "b": -1, "x": -1, "sc": 1, "d": 0, "hd": 0, "lab": nm}
+            w_ = 16 if bits == 16 else 32
+            extra = []
+            for j, nm in enumerate(labs[:4]):
+                extra.append({"k": "ins", "mn": "MOV", "ops": [ml(nm, [8, 16, 32][j % 3]), {"t": "i", "v": j + 1, "sty": "d"}]})
+                extra.append({"k": "ins", "mn": "MOV", "ops": [{"t": "r", "w": w_, "n": j}, ml(nm, w_)]})
+                extra.append({"k": "ins", "mn": "MOV", "ops": [ml(nm, 0), {"t": "r", "w": 8, "n": j}]})
+            base = base[:-2] + extra + base[-2:]
             bid = R.add(base)
             nb += 1
             pick = cells if not quick else rng.sample(cells, 12)
